@@ -77,25 +77,36 @@ theorem lin_vanishes_exactly_at_equilibrium (s : EqSystem) (hs : Homogeneous s) 
 
 /-! ## Squared and relative variables -/
 
-/-- **`square_zero_iff`.**  `NumSysSquare.f(y, ·)` vanishes iff the state `c = y²` is an equilibrium
-    state with the initial totals. -/
+/-- **`square_zero_iff`.**  `NumSysSquare.f(y, ·)` vanishes iff the concentrations `post_processor(y) = y²` are an
+    equilibrium state with the initial totals (the residual is a function of the transformed variable). -/
 theorem square_zero_iff (s : EqSystem) (hs : Homogeneous s) (prec : List Bool) (small : ℝ) (y p r : List ℝ)
     (h : numSysSquareF s prec small y p = .ok r) :
     (∀ x ∈ r, x = 0) ↔
-      (∀ νK ∈ (netStoichs s).zip (eqParamsOf s p), quotient (y.map fun yi => yi * yi) νK.1 = νK.2) ∧
-      (∀ b ∈ compMat s, total b (y.map fun yi => yi * yi) = total b (initConcsOf s p)) :=
+      (∀ νK ∈ (netStoichs s).zip (eqParamsOf s p), quotient (squarePost y) νK.1 = νK.2) ∧
+      (∀ b ∈ compMat s, total b (squarePost y) = total b (initConcsOf s p)) :=
   lin_zero_iff s hs prec small _ p r h
 
-/-- `NumSysLinRel.f(y, ·)` vanishes iff the state `c = m ∘ y` (`m` = `upper_conc_bounds(init_concs)`)
-    is an equilibrium state with the initial totals. -/
+/-- the change of variables of `NumSysSquare` reaches every non-negative state: `post_processor(pre_processor(c)) = c`
+    (`pre_processor = sqrt(|c|)`), so every non-negative equilibrium state is the image of a root of the residual -/
+theorem square_post_pre (c : List ℝ) (hc : ∀ x ∈ c, 0 ≤ x) : squarePost (squarePre c) = c :=
+  squarePost_squarePre c hc
+
+/-- `NumSysLinRel.f(y, ·)` vanishes iff the concentrations `post_processor(y) = y ∘ m`
+    (`m = upper_conc_bounds(init_concs)`) are an equilibrium state with the initial totals. -/
 theorem linrel_zero_iff (s : EqSystem) (hs : Homogeneous s) (prec : List Bool) (small : ℝ) (y p r : List ℝ)
     (h : numSysLinRelF s prec small y p = .ok r) :
     ∃ m, upperConcBounds s (initConcsOf s p) = .ok m ∧
       ((∀ x ∈ r, x = 0) ↔
-        (∀ νK ∈ (netStoichs s).zip (eqParamsOf s p), quotient (List.zipWith (· * ·) m y) νK.1 = νK.2) ∧
-        (∀ b ∈ compMat s, total b (List.zipWith (· * ·) m y) = total b (initConcsOf s p))) := by
+        (∀ νK ∈ (netStoichs s).zip (eqParamsOf s p), quotient (linRelPost m y) νK.1 = νK.2) ∧
+        (∀ b ∈ compMat s, total b (linRelPost m y) = total b (initConcsOf s p))) := by
   obtain ⟨m, hm, hlin⟩ := numSysLinRelF_ok h
+  rw [linRel_scaled_eq_post] at hlin
   exact ⟨m, hm, lin_zero_iff s hs prec small _ p r hlin⟩
+
+/-- `post_processor(pre_processor(c)) = c` for `NumSysLinRel` when no bound is zero -/
+theorem linrel_post_pre (m c : List ℝ) (hm : ∀ x ∈ m, x ≠ 0) (hl : c.length ≤ m.length) :
+    linRelPost m (linRelPre m c) = c :=
+  linRelPost_linRelPre m c hm hl
 
 /-- **Side condition of `linrel_zero_iff`.**  `upper_conc_bounds` is finite only for species that contain an element:
     for a charge-only species (e.g. `e-`) Python yields `inf` and the model `.error "inf"`, so the hypothesis of
@@ -109,16 +120,23 @@ theorem linrel_defined (s : EqSystem) (hs : Homogeneous s) (hel : ∀ kv ∈ s.s
 
 /-! ## Logarithmic variables (`NumSysLog`) -/
 
-/-- **General form**: for positive constants, `NumSysLog.f(y, ·)` vanishes iff the state `c = exp y`
-    satisfies every row of `_get_A_ks` and carries the initial totals. -/
+/-- **General form**: for positive constants, `NumSysLog.f(y, ·)` vanishes iff the concentrations
+    `post_processor(y) = exp y` satisfy every row of `_get_A_ks` and carry the initial totals. -/
 theorem log_zero_iff_general (s : EqSystem) (prec : List Bool) (small : ℝ) (y p r : List ℝ)
     (h : numSysLogF s prec small y p = .ok r) (hK : ∀ k ∈ ksOf s prec small p, 0 < k) :
     ∃ A, stoichs s (nonPrecipRids s prec) = .ok A ∧
       ((∀ x ∈ r, x = 0) ↔
-        (∀ rk ∈ A.zip (ksOf s prec small p), quotient (y.map Real.exp) rk.1 = rk.2) ∧
-        (∀ b ∈ compMat s, total b (y.map Real.exp) = total b (initConcsOf s p))) := by
+        (∀ rk ∈ A.zip (ksOf s prec small p), quotient (logPost y) rk.1 = rk.2) ∧
+        (∀ b ∈ compMat s, total b (logPost y) = total b (initConcsOf s p))) := by
   obtain ⟨A, hA, _, hr⟩ := numSysLogF_ok h
   exact ⟨A, hA, by rw [hr]; exact log_zero_iff_core A (compMat s) _ y _ hK⟩
+
+/-- the change of variables of `NumSysLog`: `pre_processor(c) = ln(c + small)` ("zero concentration ≈ small"), so
+    `post_processor(pre_processor(c)) = c + small` — NOT the identity: a state handed to the solver is shifted by
+    `small = exp(-36)` in every component (mirrors the code as it is) -/
+theorem log_post_pre (small : ℝ) (c : List ℝ) (hc : ∀ x ∈ c, 0 < x + small) :
+    logPost (logPre small c) = c.map (· + small) :=
+  logPost_logPre small c hc
 
 /-- **`log_zero_iff`.**  Homogeneous system, `c > 0`, `K > 0`, `y = ln c`:
     `NumSysLog.f(y, c₀ ++ K) = 0 ⇔ (∀ i, Q_i(c) = K_i) ∧ B·c = B·c₀`. -/
@@ -137,7 +155,9 @@ theorem log_zero_iff (s : EqSystem) (hs : Homogeneous s) (prec : List Bool) (sma
   obtain ⟨A, hA, hiff⟩ := log_zero_iff_general s prec small _ p r h (by rw [ksOf_homog hs]; exact hK)
   rw [stoichs_homog hs] at hA
   cases hA
-  rw [ksOf_homog hs, hexp] at hiff
+  rw [ksOf_homog hs] at hiff
+  have hpost : logPost (c.map Real.log) = c := hexp
+  rw [hpost] at hiff
   exact hiff
 
 /-- the logarithmic call returns for every well-shaped argument of a homogeneous system with at least one
@@ -215,6 +235,44 @@ theorem lin_zero_iff_reaction_constants (s : EqSystem) (hs : Homogeneous s) (y c
       (∀ νK ∈ (netStoichs s).zip Ks, quotient y νK.1 = νK.2) ∧ (∀ b ∈ compMat s, total b y = total b c0) := by
   have := lin_zero_iff s hs [] 0 y (solverParams c0 Ks) r h
   rwa [(solverParams_split s c0 Ks hlen).1, (solverParams_split s c0 Ks hlen).2] at this
+
+/-- **`new_eq_params = False`.**  The call takes only the `ns` initial concentrations (anything more: AssertionError) and
+    uses the reactions' own constants `Ks = [rxn.param …]`: the residual vanishes iff `Q_i(y) = rxn.param_i` and the totals
+    are those of `init_concs`. -/
+theorem lin_zero_iff_own_constants (s : EqSystem) (hs : Homogeneous s) (prec : List Bool) (small : ℝ)
+    (Ks y c0 r : List ℝ) (h : numSysLinOwnF s prec small Ks y c0 = .ok r) :
+    (∀ x ∈ r, x = 0) ↔
+      (∀ νK ∈ (netStoichs s).zip Ks, quotient y νK.1 = νK.2) ∧ (∀ b ∈ compMat s, total b y = total b c0) := by
+  obtain ⟨hl, hlin⟩ := numSysLinOwnF_ok h
+  have := lin_zero_iff s hs prec small y (c0 ++ Ks) r hlin
+  rwa [(own_split s c0 Ks hl).1, (own_split s c0 Ks hl).2] at this
+
+/-- the logarithmic formulation with the reactions' own (positive) constants -/
+theorem log_zero_iff_own_constants (s : EqSystem) (hs : Homogeneous s) (prec : List Bool) (small : ℝ)
+    (Ks y c0 r : List ℝ) (hK : ∀ k ∈ Ks, 0 < k) (h : numSysLogOwnF s prec small Ks y c0 = .ok r) :
+    (∀ x ∈ r, x = 0) ↔
+      (∀ νK ∈ (netStoichs s).zip Ks, quotient (logPost y) νK.1 = νK.2) ∧
+      (∀ b ∈ compMat s, total b (logPost y) = total b c0) := by
+  obtain ⟨hl, hlog⟩ := numSysLogOwnF_ok h
+  obtain ⟨A, hA, hiff⟩ := log_zero_iff_general s prec small y (c0 ++ Ks) r hlog
+    (by rw [ksOf_homog hs, (own_split s c0 Ks hl).2]; exact hK)
+  rw [stoichs_homog hs] at hA
+  cases hA
+  rwa [ksOf_homog hs, (own_split s c0 Ks hl).1, (own_split s c0 Ks hl).2] at hiff
+
+/-- success characterisation and refusal of the `new_eq_params = False` call -/
+theorem lin_own_defined (s : EqSystem) (hs : Homogeneous s) (prec : List Bool) (small : ℝ) (Ks y c0 : List ℝ)
+    (hy : y.length = s.ns) (hK : Ks.length = s.nr) (hnr : 0 < s.nr) (hy0 : ∀ x ∈ y, x ≠ 0) :
+    (c0.length = s.ns → ∃ r, numSysLinOwnF s prec small Ks y c0 = .ok r) ∧
+    (s.ns < c0.length → numSysLinOwnF s prec small Ks y c0 = .error "AssertionError") := by
+  refine ⟨fun hc => numSysLinOwnF_defined hs prec small hy hc hK hnr hy0, fun hc => ?_⟩
+  unfold numSysLinOwnF ownParams
+  simp [hc]
+
+/-- `equilibrium_quotient` on a 2-D array of states (one per row) returns the quotient of every row -/
+theorem quotients2d_spec (rows : List (List ℝ)) (st : List ℤ) (qs : List ℝ)
+    (h : equilibriumQuotient2d rows st = .ok qs) : qs = rows.map fun c => quotient c st :=
+  mapM_ok_eq_map _ _ rows qs (fun _ _ hq => equilibriumQuotient_ok hq) h
 
 /-! ## Row-reduced configurations (`rref_equil`, `rref_preserv`) -/
 
